@@ -560,7 +560,7 @@ def _tactic1(nctx, names, elims, which):
 
 
 for _which in ("_tactic_1", "_tactic_3"):
-    for _nctx, _names, _elims, _tier, _sh in ((1, V2, [["y"], ["x", "y"]], "quick", 2), (2, V2, [["y"], ["x", "y"], ["y", "x"]], "quick", 16), (2, V3, [["x", "y"], ["y", "x"]], "thorough", 16), (3, V2, [["x", "y"]], "thorough", 16)):
+    for _nctx, _names, _elims, _tier, _sh in ((1, V2, [["y"], ["x", "y"]], "quick", 2), (2, V2, [["y"], ["x", "y"], ["y", "x"]], "quick", 16), (2, V3, [["x", "y"], ["y", "x"]], "thorough", 16)):
         contract(
             "PolyhedralTermList.%s[%d context terms over %s]" % (_which, _nctx, ",".join(_names)),
             ["C04", "C14", "C13"],
